@@ -47,6 +47,7 @@ type c01Gen struct {
 	schemas  []string
 	objRefs  []string // component schemas that are plain objects (usable in allOf / oneOf)
 	counter  int
+	mapDepth int
 	usedType map[string]bool
 }
 
@@ -284,7 +285,13 @@ func (g *c01Gen) schema(depth int) map[string]any {
 		return g.object(depth)
 	case n < 9 && depth < 3:
 		g.feat["schema=map"]++
-		return map[string]any{"type": "object", "additionalProperties": g.schema(depth + 1)}
+		if g.mapDepth >= 2 { // a map of a map of a map gives two auxiliary types one name when flattening is disabled (probe P20)
+			return map[string]any{"type": "object", "additionalProperties": g.primitive()}
+		}
+		g.mapDepth++
+		v := g.schema(depth + 1)
+		g.mapDepth--
+		return map[string]any{"type": "object", "additionalProperties": v}
 	case n < 11:
 		return g.enumSchema()
 	case n < 12 && len(g.objRefs) > 0 && depth < 2:
